@@ -93,8 +93,17 @@ def load_known(pid):
         m = re.match(r'finding:\s+property=(\S+)\s+obligation=(\S+)\s+::\s+'
                      r'(.*)$', line)
         if m and m.group(1) == pid:
-            out[m.group(2)] = m.group(3)
+            out[_nolines(m.group(2))] = m.group(3)
     return out
+
+
+def _nolines(name):
+    """Obligation name without source line numbers (`:raises:E:91`,
+    `:inv-step:219:3`): a finding is identified by function / case /
+    exception, not by where the statement currently sits in the file."""
+    name = re.sub(r'(:raises:[A-Za-z_]+):(\d+|None)', r'\1', name)
+    name = re.sub(r'(:(?:inv-init|inv-step|pre)):(\d+)', r'\1', name)
+    return name
 
 
 # ------------------------------------------------------------- native ----
@@ -165,16 +174,16 @@ def finish(pid, tier, seed, results, t0, level='proof', technique='',
     for o in probes:
         # a probe is expected to fail while its finding is open
         if o['status'] == 'failed':
-            if o['name'] in known:
-                findings.append((o, known[o['name']]))
+            if _nolines(o['name']) in known:
+                findings.append((o, known[_nolines(o['name'])]))
             else:
                 violations.append(o)
         elif o['status'] in ('unknown', 'error'):
             (crashes if o['status'] == 'error' else undecided).append(o)
     for o in obs + bounded:
         if o['status'] == 'failed':
-            if o['name'] in known:
-                findings.append((o, known[o['name']]))
+            if _nolines(o['name']) in known:
+                findings.append((o, known[_nolines(o['name'])]))
             else:
                 violations.append(o)
         elif o['status'] == 'unknown':
